@@ -788,3 +788,47 @@ Example same_prefixes_example :
   = map prefix_of (hostname_to_hashes Examples.sha Examples.pubsuf Examples.twin)
   /\ Examples.evil <> Examples.twin.
 Proof. split; [vm_compute; reflexivity|discriminate]. Qed.
+
+(** * The caller lower-cases the name *)
+From AGH Require Import Base.Bytes.
+
+Lemma lower_byte_idem b : lower_byte (lower_byte b) = lower_byte b.
+Proof.
+  unfold lower_byte. destruct (is_upper b) eqn:E; [|now rewrite E].
+  unfold is_upper in *. apply andb_true_iff in E. destruct E as [E1 E2].
+  apply N.leb_le in E1. apply N.leb_le in E2.
+  replace (b + 32 <=? 90)%N with false by (symmetry; apply N.leb_gt; lia).
+  now rewrite andb_false_r.
+Qed.
+
+Lemma lower_idem h : lower (lower h) = lower h.
+Proof. unfold lower. rewrite map_map. apply map_ext. exact lower_byte_idem. Qed.
+
+(** Only the lower-case form of the request's name reaches the checker: two
+    spellings of the same name give the same hashes, question, verdict and
+    cache. *)
+Lemma check_host_spelling sha pubsuf suffix ct svc order evs now h1 h2 c :
+  lower h1 = lower h2 ->
+  check_host sha pubsuf suffix ct svc order evs now h1 c
+  = check_host sha pubsuf suffix ct svc order evs now h2 c.
+Proof. unfold check_host, caller_name. now intros ->. Qed.
+
+Lemma check_host_lower sha pubsuf suffix ct svc order evs now h c :
+  check_host sha pubsuf suffix ct svc order evs now h c
+  = check sha pubsuf suffix ct svc order evs now (lower h) c /\
+  check_host sha pubsuf suffix ct svc order evs now (lower h) c
+  = check_host sha pubsuf suffix ct svc order evs now h c.
+Proof. unfold check_host, caller_name. now rewrite lower_idem. Qed.
+
+Lemma check_host_question_only_prefixes sha pubsuf suffix ct svc1 svc2 order1 order2 evs1 evs2
+    now c host1 host2 q1 q2 :
+  map prefix_of (hostname_to_hashes sha pubsuf (lower host1))
+    = map prefix_of (hostname_to_hashes sha pubsuf (lower host2)) ->
+  o_question (snd (check_host sha pubsuf suffix ct svc1 order1 evs1 now host1 c)) = Some q1 ->
+  o_question (snd (check_host sha pubsuf suffix ct svc2 order2 evs2 now host2 c)) = Some q2 ->
+  q1 = q2.
+Proof. unfold check_host, caller_name. apply check_question_only_prefixes. Qed.
+
+Example caller_example :
+  caller_name [87; 87; 87; 46; 69; 118; 105; 108; 46; 67; 79; 77]%N = [119; 119; 119; 46; 101; 118; 105; 108; 46; 99; 111; 109]%N.
+Proof. reflexivity. Qed.
